@@ -37,9 +37,13 @@ def render(var, base_names):
     f2 = [d for d in order if d in second]
     ex = "".join(EXTRA[e] for e in extras)
     t1 = HEAD + (ex if var["extrasFirst"] else "") + "".join(DEFS[d] for d in f1) + ("" if var["extrasFirst"] else ex)
+    link = var.get("link", "none")
+    if f2 and link == "oneIncludesTwo":
+        t1 = t1.replace(HEAD, HEAD + 'include "two.circom";\n', 1)
     files = [{"path": "one.circom", "named": True, "text": t1}]
     if f2:
-        files.append({"path": "two.circom", "named": True, "text": HEAD + "".join(DEFS[d] for d in f2)})
+        files.append({"path": "two.circom", "named": True,
+                      "text": HEAD + ('include "one.circom";\n' if link == "twoIncludesOne" else "") + "".join(DEFS[d] for d in f2)})
     if var["swapFiles"]:
         files.reverse()
     return files
@@ -82,9 +86,9 @@ def run(tier):
     variants = list(read_ndjson(gen.cases_path))
     # a split into two files only makes sense if the second file is non-empty; swapFiles without a second file is the same variant
     variants = [x for x in variants if x["second"] or not x["swapFiles"]]
-    if tier == "quick" and len(variants) > 700:
-        variants = rnd.sample(variants, 700)
-    base_variant = {"perm": base, "extras": [], "second": [], "swapFiles": False, "extrasFirst": False}
+    if tier == "quick" and len(variants) > 900:
+        variants = rnd.sample(variants, 900)
+    base_variant = {"perm": base, "extras": [], "second": [], "swapFiles": False, "extrasFirst": False, "link": "none"}
     allv = [base_variant] + variants
     docs = []
     for i, var in enumerate(allv):
